@@ -8,9 +8,10 @@ statement quantifies over all row sets (any number of zones, any column contents
 numeric strings, negative instants), all WHERE trees, both link directions and every iteration
 order of the group map.
 
-Times are compared as the code compares them: `get_i64_at(time_field) as u64`, 0 when the
-value is absent (`Cfg.ts`). For non-negative instants that is the natural order
-(`C15_time_order_nonneg`); for negative ones it is not (`C15_time_order_negative_fails`).
+Times are the i64 values of the time field, 0 when the value is absent (`Cfg.ts`), compared as
+integers (since `fix: 0bad566`; before, they were compared after an `as u64` cast and negative
+instants sorted last). PRECEDED BY moves to the next a when no b precedes the current one (since
+`fix: e929a74`; before, it ran `b_ptr` to the end and lost the rest of the link value).
 -/
 namespace Snel.Props.C15
 open Snel.Sequence List
@@ -58,21 +59,11 @@ example : matchSequences
     [⟨0, 0, [(tsName, .int (some 1)), ([107], .int (some 7))]⟩]
     [⟨0, 0, [(tsName, .int (some 1)), ([107], .str [55])]⟩] [.i64 7] ≠ [] := by decide
 
-/-- On non-negative instants the compared order is the order of the instants. -/
-theorem C15_time_order_nonneg (t₁ t₂ : Int) (h₁ : 0 ≤ t₁) (h₂ : 0 ≤ t₂)
-    (b₁ : t₁ < 2 ^ 63) (b₂ : t₂ < 2 ^ 63) : toU64 t₁ ≤ toU64 t₂ ↔ t₁ ≤ t₂ := by
-  unfold toU64
-  rw [Int.emod_eq_of_lt h₁ (by omega), Int.emod_eq_of_lt h₂ (by omega)]
-  omega
-
-/-- For a negative instant it is not: −1 is ordered after 0 (`ts as u64`), so `a@−1 FOLLOWED BY
-b@0` is not a candidate. Reproduced on the real code by witness 3 of the `match` stream
-(finding class `neg-time-u64`). -/
-theorem C15_time_order_negative_fails : ¬ (∀ t₁ t₂ : Int, toU64 t₁ ≤ toU64 t₂ ↔ t₁ ≤ t₂) := by
-  intro h
-  have := (h (-1) 0).mpr (by decide)
-  revert this
-  decide
+/-- regression of finding C15-neg-time-u64 (fixed): `a@−1 FOLLOWED BY b@0` is a pair -/
+example : (matchSequences
+    { preceded := false, timeField := tsName, linkField := [107], tyA := [97], tyB := [98], wh := none } none
+    [⟨0, 0, [(tsName, .int (some (-1))), ([107], .int (some 7))]⟩]
+    [⟨0, 0, [(tsName, .int (some 0)), ([107], .int (some 7))]⟩] [.i64 7]).length = 1 := by decide
 
 /-! ## completeness -/
 
@@ -103,25 +94,35 @@ theorem C15_complete_fails :
   rw [this] at hp
   cases hp
 
-/-- witness for PRECEDED BY without any WHERE: `a@1, a@10`, `b@5` -/
+/-- PRECEDED BY without any WHERE: `a@1, a@10`, `b@5` (the former witness of the fixed defect) -/
 def vCfg : Cfg :=
   { preceded := true, timeField := tsName, linkField := [107], tyA := [97], tyB := [98], wh := none }
 def vA : List Row := [wRow 0 1 none, wRow 1 10 none]
 def vB : List Row := [wRow 0 5 none]
 
-/-- PRECEDED BY loses matches even without WHERE: when the earliest b of a link value is not
-earlier than the earliest a, `b_ptr` runs to the end and no later a is looked at. `a@10` is
-preceded by `b@5`, the answer is empty. Reproduced on the real code by witness 2 of the `match`
-stream (finding class `preceded-first-b-not-earlier`). -/
-theorem C15_complete_preceded_fails :
-    ¬ (∀ (c : Cfg) (as bs : List Row), c.wh = none → Complete c as bs (keysOf c as bs)) := by
+/-- regression of finding C15-preceded-first-b-not-earlier (fixed): `a@10` is matched with `b@5`
+although the first b is not earlier than the first a -/
+example : (matchSequences vCfg none vA vB (keysOf vCfg vA vB)).map (fun p => (p.1.idx, p.2.idx)) = [(0, 1)] := by
+  decide
+
+/-- witness for PRECEDED BY: `a@10`, `b@5` (x = 1, passes `b.x = 1`), `b@7` (x = 0, fails) -/
+def uCfg : Cfg := { wCfg with preceded := true }
+def uA : List Row := [wRow 0 10 none]
+def uB : List Row := [wRow 0 5 (some 1), wRow 1 7 (some 0)]
+
+/-- The same defect in the other direction: PRECEDED BY compares an a-row only with its latest
+earlier partner. `a@10` is preceded by the qualifying `b@5`, but `b@7` fails WHERE and the answer
+is empty. Reproduced on the real code by witness 1 of the `match` stream (finding class
+`nearest-partner-fails-where`). -/
+theorem C15_complete_preceded_nearest_fails :
+    ¬ (∀ (c : Cfg) (as bs : List Row), c.preceded = true → Complete c as bs (keysOf c as bs)) := by
   intro h
-  have hq : Qualifies vCfg (wRow 1 10 none) (wRow 0 5 none) := by
+  have hq : Qualifies uCfg (wRow 0 10 none) (wRow 0 5 (some 1)) := by
     refine ⟨⟨by decide, by decide⟩, ?_, by decide, by decide⟩
-    show (if vCfg.preceded then _ else _)
+    show (if uCfg.preceded then _ else _)
     decide
-  obtain ⟨p, hp, _⟩ := (h vCfg vA vB rfl (wRow 1 10 none) (by simp [vA])).mpr ⟨_, by simp [vB], hq⟩
-  have : matchSequences vCfg none vA vB (keysOf vCfg vA vB) = [] := by decide
+  obtain ⟨p, hp, _⟩ := (h uCfg uA uB rfl (wRow 0 10 none) (by simp [uA])).mpr ⟨_, by simp [uB], hq⟩
+  have : matchSequences uCfg none uA uB (keysOf uCfg uA uB) = [] := by decide
   rw [this] at hp
   cases hp
 
@@ -230,28 +231,18 @@ example : (matchSequences wCfg none (prefilterA wCfg wA) (prefilterB wCfg wB)
     (keysOf wCfg (prefilterA wCfg wA) (prefilterB wCfg wB))).map (fun p => (p.1.idx, p.2.idx)) = [(0, 1)] := by
   decide
 
-/-- What the PRECEDED BY sweep computes when the earliest b of the a-row's link value is earlier
-than its earliest a: the a-row is returned iff it passes its side and its *latest* earlier
-partner exists and passes the b side. -/
+/-- What the PRECEDED BY sweep computes, exactly: an a-row is returned iff it passes its side and
+its *latest* earlier partner — the last row of the leading run of earlier rows in its link
+group's time-sorted b-list — exists and passes the b side. -/
 theorem C15_preceded_matched_iff_latest (c : Cfg) (as bs : List Row) (order : List Key)
     (hp : c.preceded = true)
-    (a : Row) (ha : a ∈ as) (k : Key) (hk : linkOf c.linkField a = some k) (hord : k ∈ order)
-    (hfirst : ∀ a0 b0, (groupRows c k as).head? = some a0 → (groupRows c k bs).head? = some b0 →
-      c.ts b0 < c.ts a0) :
+    (a : Row) (ha : a ∈ as) (k : Key) (hk : linkOf c.linkField a = some k) (hord : k ∈ order) :
     Matched c as bs order a ↔
       ∃ b, latestP c a (groupRows c k bs) = some b ∧ c.okA a = true ∧ c.okB b = true := by
   -- closed form of this group's sweep
   have hclosed : precededBy c (groupRows c k as) (groupRows c k bs)
-      = pbSpec c (groupRows c k as) (groupRows c k bs) := by
-    cases hA : groupRows c k as with
-    | nil => simp [precededBy_nil_left, pbSpec]
-    | cons a0 rest =>
-      rw [precededBy_eq_spec c a0 rest _ (hA ▸ groupRows_sorted c k as)]
-      cases hB : groupRows c k bs with
-      | nil => simp
-      | cons b0 restB =>
-        have := hfirst a0 b0 (by simp [hA]) (by simp [hB])
-        rw [dropWhile_cons_of_neg (by simpa using this)]
+      = pbSpec c (groupRows c k as) (groupRows c k bs) :=
+    precededBy_eq_spec c _ _ (groupRows_sorted c k as)
   unfold Matched
   rw [matchSequences_none]
   simp only [aOf, hp, if_true]
@@ -283,18 +274,15 @@ theorem C15_preceded_matched_iff_latest (c : Cfg) (as bs : List Row) (order : Li
     refine mem_filterMap.mpr ⟨a, mem_groupRows.mpr ⟨ha, hk⟩, ?_⟩
     simp [pbStep, hb, Cfg.pairOk, hoa, hob]
 
-/-- PARTIAL completeness for PRECEDED BY, under exactly the two missing hypotheses: (1) the
-earliest b of the a-row's link value is strictly earlier than its earliest a (otherwise the
-sweep runs `b_ptr` to the end and returns nothing for the whole link value), and (2) the latest
-earlier partner of the a-row (if any) passes the b-side conditions. -/
+/-- PARTIAL completeness for PRECEDED BY, under exactly the one missing hypothesis (the mirror
+image of `C15_complete_partial`): the latest earlier partner of the a-row (if any) passes the
+b-side conditions — in particular whenever the WHERE addresses no condition to b. -/
 theorem C15_complete_preceded_partial (c : Cfg) (as bs : List Row) (order : List Key)
     (hp : c.preceded = true)
     (a : Row) (ha : a ∈ as) (k : Key) (hk : linkOf c.linkField a = some k) (hord : k ∈ order)
-    (hfirst : ∀ a0 b0, (groupRows c k as).head? = some a0 → (groupRows c k bs).head? = some b0 →
-      c.ts b0 < c.ts a0)
     (hnear : ∀ b, latestP c a (groupRows c k bs) = some b → c.okB b = true) :
     Matched c as bs order a ↔ ∃ b ∈ bs, Qualifies c a b := by
-  rw [C15_preceded_matched_iff_latest c as bs order hp a ha k hk hord hfirst]
+  rw [C15_preceded_matched_iff_latest c as bs order hp a ha k hk hord]
   constructor
   · rintro ⟨b, hb, hoa, hob⟩
     obtain ⟨hmem, hts⟩ := latestP_some hb
@@ -308,14 +296,35 @@ theorem C15_complete_preceded_partial (c : Cfg) (as bs : List Row) (order : List
     obtain ⟨b', hb'⟩ := latestP_isSome_of_mem (groupRows_sorted c k bs) hbg ht
     exact ⟨b', hb', hoa, hnear b' hb'⟩
 
-example : ∀ a0 b0, (groupRows vCfg (.i64 7) [wRow 1 10 none]).head? = some a0 →
-    (groupRows vCfg (.i64 7) vB).head? = some b0 → vCfg.ts b0 < vCfg.ts a0 := by
-  intro a0 b0 h1 h2
-  have e1 : (groupRows vCfg (.i64 7) [wRow 1 10 none]).head? = some (wRow 1 10 none) := by decide
-  have e2 : (groupRows vCfg (.i64 7) vB).head? = some (wRow 0 5 none) := by decide
-  rw [e1] at h1; rw [e2] at h2
-  cases h1; cases h2
-  decide
+example : ∀ b, latestP uCfg (wRow 0 10 none) (groupRows uCfg (.i64 7) [wRow 0 5 (some 1)]) = some b →
+    uCfg.okB b = true := by decide
+
+/-- Both directions are complete on what the end-to-end path feeds the matcher: for PRECEDED BY
+too, on inputs pre-filtered by the per-type sub-queries an a-row of the original data is matched
+iff it has a qualifying partner in the original data. -/
+theorem C15_complete_preceded_prefiltered (c : Cfg) (as bs : List Row)
+    (hp : c.preceded = true) (a : Row) (ha : a ∈ as) :
+    Matched c (prefilterA c as) (prefilterB c bs) (keysOf c (prefilterA c as) (prefilterB c bs)) a
+      ↔ ∃ b ∈ bs, Qualifies c a b := by
+  constructor
+  · rintro ⟨p, hpm, rfl⟩
+    obtain ⟨_, h2, h3⟩ := C15_pairs_sound c none _ _ _ p hpm
+    exact ⟨bOf c p, (mem_filter.mp h2).1, h3⟩
+  · rintro ⟨b, hbs, hq⟩
+    obtain ⟨⟨hl1, hl2⟩, ht, hoa, hob⟩ := hq
+    cases hk : linkOf c.linkField a with
+    | none => exact absurd hk hl1
+    | some k =>
+      have ha' : a ∈ prefilterA c as := mem_filter.mpr ⟨ha, hoa⟩
+      have hb' : b ∈ prefilterB c bs := mem_filter.mpr ⟨hbs, hob⟩
+      have hord : k ∈ keysOf c (prefilterA c as) (prefilterB c bs) := by
+        unfold keysOf
+        apply mem_dedupKeys.mpr
+        exact mem_filterMap.mpr ⟨a, mem_append_left _ ha', hk⟩
+      refine (C15_complete_preceded_partial c _ _ _ hp a ha' k hk hord ?_).mpr
+        ⟨b, hb', ⟨hl1, hl2⟩, ht, hoa, hob⟩
+      intro b' hb'
+      exact (mem_filter.mp (mem_groupRows.mp (latestP_some hb').1).1).2
 
 /-! ## LIMIT -/
 
